@@ -2052,6 +2052,10 @@ class Machine:
                 raise Unanalysable("indirect call through %s" % (f[0] if f else "?"))
         inst = self.p.insts[iid]
         dest_loc = None
+        # target-feature obligation (C01 v / C13): also when the callee is replaced by its summary
+        tf = inst.get("target_features") or []
+        if tf and inst["local"] and self.hooks is not None:
+            self.hooks.on_target_feature_call(self, st, inst, tf)
         prim = self.prims.get(inst["npath"].replace("std::", "core::"))
         if prim is None and inst["crate"] != self.p.f["crate"]:
             prim = self.prims.get("*" + inst["npath"].split("::")[-1]) if False else None
@@ -2072,9 +2076,7 @@ class Machine:
                 return
         if inst["kind"] == "intrinsic" or inst["body"] is None:
             raise Unanalysable("unmodelled leaf function %s" % inst["name"])
-        # target-feature obligation (C01 v)
-        tf = inst.get("target_features") or []
-        if tf and self.hooks is not None:
+        if tf and not inst["local"] and self.hooks is not None:
             self.hooks.on_target_feature_call(self, st, inst, tf)
         dloc, dtid = self.place_loc(st, fr, t["dest"])
         self.push_frame(st, iid, args, dloc, t["t"])
